@@ -1132,12 +1132,20 @@ func (d *TD) act(id, kind string, amt int64, who string) string {
 	if fn == nil {
 		return "unknown-kind"
 	}
+	// an answer made by the driver WHILE it services an engine goroutine parked at game.queue:<event> (decided before the
+	// call: the engine may park there as a consequence of this very answer)
+	d.hmu.Lock()
+	earlyFor := ""
+	if d.servicing && strings.HasPrefix(d.parkedAt, "game.queue:") {
+		earlyFor = strings.SplitN(strings.TrimPrefix(d.parkedAt, "game.queue:"), "#", 2)[0]
+	}
+	d.hmu.Unlock()
 	return d.call("Player"+strings.Title(kind), &a, func() error {
 		err := fn()
 		if err == nil && (kind == "ready" || kind == "pay") && gi >= 0 {
 			d.hmu.Lock()
-			if strings.HasPrefix(d.parkedAt, "game.queue:") {
-				ev := strings.SplitN(strings.TrimPrefix(d.parkedAt, "game.queue:"), "#", 2)[0]
+			if earlyFor != "" {
+				ev := earlyFor
 				if d.early == nil {
 					d.early = map[string]map[int]bool{}
 				}
